@@ -32,7 +32,10 @@ ASSUMPTIONS = [
     "gff_load_block_independent assumes no feature lists the same span twice (duplicate rows of one ID are collapsed "
     "only across blocks: gff_blocks_duplicate_row_counter, replayed against the real loader by the correspondence)",
     "copy/deepcopy/pickle/write+reload/to_json round trips are exercised against the multiset oracle, not modelled",
-    "GFF IDs are unique per feature (rows sharing an ID are one multi-span feature), as GFF3 requires",
+    "GFF IDs are unique per feature (rows sharing an ID are one multi-span feature), as GFF3 requires; in multi-file "
+    "(glob) loads the generated IDs are unique across the files as well (the same ID in two files is not probed)",
+    "num_matches is compared with the scan for every argument subset incl. attributes (substring search, as in the "
+    "two query methods); the model's numMatches mirrors the code (attributes compared with `=`)",
 ]
 
 GEN_FILE = LEAN / "CogentModel" / "Gen" / "C17Sql.lean"
@@ -208,12 +211,12 @@ def gen_intent(rng, n, how):
 
 
 # ---- GFF3 text ------------------------------------------------------------
-def gff_text(rng, n_feat):
+def gff_text(rng, n_feat, id_suffix=""):
     """GFF3 text with (a) features carrying an ID (1-3 rows each, rows of one feature scattered over the file) and
     (b) many rows WITHOUT an ID: only `Parent=`, only a note, or no attributes at all"""
     rows, ids = [], []
     for i in range(n_feat):
-        fid = f"{rng.choice(NAMES)}{i}"
+        fid = f"{rng.choice(NAMES)}{i}{id_suffix}"
         ids.append(fid)
         seqid, biotype, strand = rng.choice(SEQIDS[:3]), rng.choice(BIOTYPES), rng.choice(["+", "-", "."])
         attrs = f"ID={fid};note={rng.choice(TOKENS)}"
@@ -323,6 +326,17 @@ def build_case(rng, kind, how, n):
         intent, rows = parse_gff_text(text)
         lpb = rng.choice([None, 1, 2, 3, 5, 8])
         return dict(kind="gff", how="gff", text=text, lines_per_block=lpb, intent=[_clean(r) for r in intent], rows=rows)
+    if how == "gffglob":
+        # several GFF3 files loaded by ONE load_annotations call through a glob pattern; IDs are unique across the
+        # files (suffix), rows without an ID occur in any number of them
+        texts, intent, idless = [], [], []
+        for k in range(rng.choice([2, 2, 3])):
+            t = gff_text(rng, max(0, n - k), id_suffix=f"f{k}")
+            it, rows = parse_gff_text(t)
+            texts.append(t)
+            intent += it
+            idless.append(sum(1 for w in rows if w["id"] is None))
+        return dict(kind="gff", how="gffglob", texts=texts, idless=idless, intent=[_clean(r) for r in intent])
     recs = gen_intent(rng, n, "add" if how == "add" else "gb")
     if how == "add":
         calls = []
@@ -370,6 +384,14 @@ def build_db(case, scratch: Path, tag="x"):
         if case.get("lines_per_block"):
             return load_annotations(path=p, lines_per_block=case["lines_per_block"])
         return load_annotations(path=p)
+    if case["how"] == "gffglob":
+        d = scratch / f"c17_{tag}_glob"
+        d.mkdir(exist_ok=True)
+        for old in d.glob("*.gff3"):
+            old.unlink()
+        for i, text in enumerate(case["texts"]):
+            (d / f"part{i}.gff3").write_text(text)
+        return load_annotations(path=d / "*.gff3")
     db = None
     for i, (sid, text) in enumerate(case["texts"]):
         p = scratch / f"c17_{tag}_{i}.gb"
@@ -524,11 +546,17 @@ def run_case(case, scratch, out=None, rng=None, n_windows=60, queries=None, tag=
     intent = case["intent"]
     # (1) the stored record list is what was put in (loader-made names of ID-less rows are not compared)
     stored = [r for t in db.table_names for r in raw_rows(db, t)]
-    with_parent = case["how"] == "gff"
+    with_parent = case["how"] in ("gff", "gffglob")
     got = srt(canon_rec(r, parent=with_parent) for r in stored)
     want = srt(canon_rec(r, parent=with_parent) for r in intent)
     if got != want:
-        if case["how"] == "gff":
+        if case["how"] == "gffglob":
+            # narrow class: ID-less rows in >= 2 of the files, records were LOST, and every record with a real ID is
+            # stored intact -- i.e. only loader-named rows of different files were folded together
+            named = lambda xs: [x for x in xs if x[2] is not None]
+            merged = sum(1 for c in case["idless"] if c) >= 2 and len(got) < len(want) and named(got) == named(want)
+            cls = "idless-rows-merged-across-files" if merged else "plain"
+        elif case["how"] == "gff":
             nb = n_blocks(case)
             cls = f"blocks={'1' if nb == 1 else '2' if nb == 2 else '3+'}:{'id-split' if _ids_split_over_blocks(case) else 'plain'}"
         else:
@@ -577,14 +605,22 @@ def run_case(case, scratch, out=None, rng=None, n_windows=60, queries=None, tag=
                           f"records:{src}:{q_mode(q)}:{q_cols(q)}"))
         if q_mode(q) == "none":
             kw = {k: v for k, v in q.items() if v is not None and k != "allow_partial"}
-            if "attributes" in kw:
-                continue  # num_matches takes the attributes text as an exact / % pattern, not as a substring
             try:
                 n = db.num_matches(**kw)
             except Exception as e:  # noqa: BLE001
                 n = f"raised {type(e).__name__}"
             if n != len(want):
-                fails.append(("num_matches differs from the linear scan", dict(case=case, query=q), len(want), n, f"num_matches:{src}:{q_cols(q)}"))
+                sig = f"num_matches:{src}:{q_cols(q)}"
+                if "attributes" in kw:
+                    # one narrow class: the count is exactly what results when `attributes` alone is compared with
+                    # `=` / the caller's own % pattern instead of the substring search of the query methods (all
+                    # other columns still right).  Anything else keeps the general signature.
+                    q2 = dict(q, attributes=None)
+                    a = q["attributes"]
+                    n_exact = sum(1 for r in oracle_select(intent, q2) if r.get("attrs") is not None and col_match(a, r["attrs"]))
+                    if n == n_exact:
+                        sig = "num_matches:attributes-compared-exactly"
+                fails.append(("num_matches differs from the linear scan", dict(case=case, query=q), len(want), n, sig))
     return fails
 
 
@@ -858,7 +894,8 @@ def spec_check(ctx, budget):
         "{seqid,biotype,name,strand,attributes} x {no window, partial, within, start-only, stop-only}; "
         "get_features_matching = get_records_matching = num_matches = count_distinct = scan; len. "
         "subset/union/update chains (file-backed or in-memory start, subset to file) with deepcopy/pickle/json/"
-        "write+reload after EVERY step vs multiset arithmetic. non-trivial = query selecting a non-empty proper "
+        "write+reload after EVERY step vs multiset arithmetic. Several GFF3 files (IDs unique across files, ID-less rows "
+        "in 0..3 of them) loaded through ONE glob pattern vs the concatenation of their record lists. non-trivial = query selecting a non-empty proper "
         "subset, or a multiset/chain step on a non-empty db"
     )
     rng = ctx.subrng(f"spec{budget}")
@@ -936,6 +973,14 @@ def spec_check(ctx, budget):
             mc = dict(a=a, b=None, op=["subset", q])
             for what, inp, want, got, sig in run_multiset_case(mc, scratch, out, tag="sub"):
                 add_failure(out, "spec", what, inp, want, got, sig=sig)
+    # several GFF3 files through one glob pattern (own rng stream: the cases above are unchanged by it)
+    rng2 = ctx.subrng(f"specglob{budget}")
+    for i in range(5 * budget):
+        case = build_case(rng2, "gff", "gffglob", rng2.choice([0, 1, 2, 3]))
+        bump(out, "gffglob_files_with_idless_rows", sum(1 for c in case["idless"] if c))
+        bump(out, "source", "gff:gffglob")
+        for what, inp, want, got, sig in run_case(case, scratch, out, rng2, n_windows=6, tag=f"gl{i}"):
+            add_failure(out, "spec", what, inp, want, got, sig=sig)
     return out
 
 
@@ -1051,8 +1096,8 @@ def correspondence(ctx):
         batch.append(("queries", dict(db=dj, qs=[_model_q(q) for q in qs])))
         meta.append((kind, how, dj, qs, real_f, real_r))
         # num_matches
-        nq = [q for q in qs if q_mode(q) == "none" and q.get("attributes") is None]
-        batch.append(("nummatches", dict(db=dj, qs=[_model_q(q, wrap_attr=False) for q in nq])))
+        nq = [q for q in qs if q_mode(q) == "none"]  # attributes included: numMatches mirrors the unwrapped value
+        batch.append(("nummatches", dict(db=dj, qs=[_model_q(q) for q in nq])))
         meta.append(("num", nq, [db.num_matches(**{k: v for k, v in q.items() if v is not None and k != "allow_partial"}) for q in nq], dj))
     replies = ctx.driver.batch(batch)
     for m, rep in zip(meta, replies):
@@ -1168,14 +1213,10 @@ def correspondence(ctx):
     return out
 
 
-def _model_q(q, wrap_attr=True):
-    # sqlite compares a TEXT column with an int by converting the int to text: the model gets the text
-    m = {k: (str(v) if k in COLS and v is not None and not isinstance(v, str) else v) for k, v in q.items()}
-    if not wrap_attr and m.get("attributes") is not None:
-        # num_matches hands the attributes value to SQL unwrapped; the model's prepAttr would wrap it, so the
-        # harness only sends attribute-free queries to numMatches
-        m["attributes"] = None
-    return m
+def _model_q(q):
+    # sqlite compares a TEXT column with an int by converting the int to text: the model gets the text.
+    # `attributes` travels as the caller wrote it: getMatching wraps it (prepAttr), numMatches does not.
+    return {k: (str(v) if k in COLS and v is not None and not isinstance(v, str) else v) for k, v in q.items()}
 
 
 def _op_histories(ctx, out, rng, scratch):
@@ -1209,7 +1250,7 @@ def _op_histories(ctx, out, rng, scratch):
                     mops.append(["add", i, rec])
                     log.append("add")
                 elif r < 0.4:
-                    seqids = rng.choice([None, None, "s1", ["s1", "S1"], "s%", "s_1", []])
+                    seqids = rng.choice([None, None, "s1", ["s1", "S1"], "s%", "s_1", [], ""])
                     mops.append(["update", i, k, seqids])
                     log.append(f"update {_kind_of(dbs[i])}<-{_kind_of(dbs[k])}")
                     dbs[i].update(dbs[k], seqids=seqids)
@@ -1271,6 +1312,14 @@ def match_finding(f, k):
     inp = f.get("input") or {}
     if r.get("got_contains") and r["got_contains"] not in str(f.get("got")):
         return False
+    if r.get("copy_is_doubled"):
+        # only the exact symptom: the copy holds every expected record twice (lost / altered records, or a raised
+        # exception, on the same route are a different violation)
+        exp, got = f.get("expected"), f.get("got")
+        if not (isinstance(exp, dict) and isinstance(got, dict) and isinstance(exp.get("copy"), list) and isinstance(got.get("copy"), list)):
+            return False
+        if sorted(list(exp["copy"]) * 2, key=repr) != sorted(got["copy"], key=repr):
+            return False
     if r.get("needs_id_split"):
         case = inp.get("case") or (inp.get("multiset_case") or {}).get("a") or {}
         if not _ids_split_over_blocks(case):
